@@ -929,18 +929,12 @@ impl Parse {
         // TODO_ZAIN: Take a look at which hashing function is being used
         let mut hasher = DefaultHasher::new();
 
-        let concatenated = format!(
-            "{}{}{}",
-            self.query,
-            self.num_params,
-            self.param_types
-                .iter()
-                .map(ToString::to_string)
-                .collect::<Vec<_>>()
-                .join(",")
-        );
-
-        concatenated.hash(&mut hasher);
+        // Hash every field on its own (each is length-delimited by its `Hash` impl). Hashing
+        // the plain concatenation `query ‖ num_params ‖ types` made different statements
+        // collide, e.g. ("q", [20, 25]) and ("q2", [0, 25]).
+        self.query.hash(&mut hasher);
+        self.num_params.hash(&mut hasher);
+        self.param_types.hash(&mut hasher);
 
         hasher.finish()
     }
